@@ -605,30 +605,19 @@ mutual
             have hrest : rest = .nil := by cases rest with | nil => rfl | cons _ _ => simp [Stmts.isNil] at hl
             subst hrest
             have hKn : (fun st' => closed (denL ρ N true .nil st')) = fun st' => (.done .normal st' : Res Sig σ P) := rfl
-            by_cases hfe : frames.isEmpty = true
-            · rw [if_pos hfe] at hgo
-              have hfr : frames = [] := by cases frames with | nil => rfl | cons _ _ => simp at hfe
-              subst hfr
-              by_cases hk : cur.kind = .delay
-              · rw [if_pos hk] at hgo
-                obtain ⟨h1, h2, h3⟩ := genLast_spec (ρ := ρ) (N := N) hgo hfi (.inl hfs)
-                refine ⟨h1, h2, fun st => ?_⟩
-                have := hsem fol (fun st' => .done .normal st') (fun st => (seqN_Kn _).symm) st
-                rw [show plug [] fol = fol from rfl] at this
-                rw [h3, this, hsrc _ hKn.symm]
-              · rw [if_neg hk] at hgo
-                have hfin := pure_ok hgo
-                subst hfin
-                refine ⟨hfi, .inl hfs, fun st => ?_⟩
-                have := hsem fol (fun st' => .done .normal st') (fun st => (seqN_Kn _).symm) st
-                rw [show plug [] fol = fol from rfl] at this
-                rw [this, hsrc _ hKn.symm]
-            · rw [if_neg hfe] at hgo
-              have hfin := pure_ok hgo
-              subst hfin
-              have hp := hplug fol hfi (.inl hfs)
-              refine ⟨hp.1, hp.2, fun st => ?_⟩
-              rw [hsem fol (fun st' => .done .normal st') (fun st => (seqN_Kn _).symm) st, hsrc _ hKn.symm]
+            obtain ⟨fol', hfol', hgo⟩ := bind_ok hgo
+            cases pure_ok hgo
+            have hspec : ItemsOK ρ N fol' ∧ ShapeOK fol' ∧ ∀ st, closed (Dblk ρ N fol' st) = closed (Dblk ρ N fol st) := by
+              by_cases hk : fol.kind = .delay
+              · rw [if_pos hk] at hfol'
+                exact genLast_spec (ρ := ρ) (N := N) hfol' hfi (.inl hfs)
+              · rw [if_neg hk] at hfol'
+                cases pure_ok hfol'
+                exact ⟨hfi, .inl hfs, fun _ => rfl⟩
+            obtain ⟨h1, h2, h3⟩ := hspec
+            have hp := hplug fol' h1 h2
+            refine ⟨hp.1, hp.2, fun st => ?_⟩
+            rw [hsem fol' (fun st' => .done .normal st') (fun st => by rw [h3]; exact (seqN_Kn _).symm) st, hsrc _ hKn.symm]
           · -- more statements follow
             rw [if_neg hl] at hgo
             obtain ⟨x, hx, h⟩ := bind_ok hgo
